@@ -647,6 +647,15 @@ func firstLungoFrame(stack string) string {
 
 var _ = unsafe.Pointer(nil)
 
+// RunUntilCrash runs f with crash and fault injection armed (engine only; natively f just runs).
+func RunUntilCrash(f func()) bool { f(); return false }
+
+// FS queries / seeds the engine's file-system model (engine only).
+func FS(op, path string) int { panic(assumeFailed{}) }
+
+// FSTrace returns the file-system calls made so far (engine only).
+func FSTrace() string { return "" }
+
 // Child turns a tag mask into the modifier "nested values use this mask" (to be or-ed into tags).
 func Child(mask uint32) uint32 { return mask << 16 }
 
